@@ -2,15 +2,33 @@ import Juniper.Proofs.StreamReduce
 import Juniper.Proofs.StreamLast
 import Juniper.Proofs.StreamRuns
 import Juniper.Proofs.StreamFaults
+import Juniper.Proofs.StreamRetry
+import Juniper.Proofs.Sources
 /-!
 # C08 — stream failures surface intact and never lose or duplicate items (property theorems,
 caller's-goroutine combinators)
 
 The vocabulary is that of `Props/C07.lean`. `SDen soft m cost s L t` quantifies over every choice of
 per-call contexts and lets *soft* failures (expired context, transient source failure) happen between
-the outputs; `sden_next` (C07) reads it at the consumer. The per-combinator theorems `s_*_denotes` of
-C07 are stated for every termination `t` of the inner stream, i.e. they already cover failures; here
-are the C08 readings.
+the outputs. The per-combinator theorems `s_*_denotes` of C07 are stated for every termination `t` of
+the inner stream, i.e. they already cover failures; here are the C08 readings, at three levels:
+
+1. **one step** (`*_error_itself`): whatever error `e` the source (or a callback) hands a method, the
+   method returns *that* `e` and leaves its own state (pending chunk, held item, `prev`, counters,
+   current inner stream) as it was. These evaluate the error guards and returned error operands
+   regenerated from `stream.go` (`Proofs/StreamGuards.lean`): `return item, End` for `return item, err`
+   breaks the theorem of that method.
+2. **one call** (`failed_call_costs_nothing`, `recovered_source_progress`): a failed `Next` — context
+   error only if the call's context had expired — leaves any denoting machine in a state that denotes
+   the same remaining sequence; once no soft failure is ahead, a live call returns exactly the next item.
+3. **the whole run, nothing erased** (`*_retry_exact`, `pipeline_retry_exact`: `ExactE`): every call of a
+   run under arbitrary contexts over an arbitrary fault script answers the context error (expired
+   context), *the next* transient error of the script (itself, once), the next item of the fault-free
+   run, the end, or the fatal error itself. A machine that keeps answering `ctx.Err()` does not satisfy
+   this (`stuck_machine_excluded`).
+
+`Flatten` and `Join` (several sources) have levels 1 and 2 and, for the whole run, the weaker erased
+reading (`*_transient_conforms_partial`).
 -/
 namespace Juniper.Props.C08
 open Juniper.Model Juniper.Model.Stream Juniper.Spec Juniper.Gen.Comb
@@ -29,37 +47,171 @@ theorem source_fault_denotes (sc : List (Ev α)) :
 example : scriptItems true 0 [Ev.item 1, .transient 5, .item 2, .fatal 9, .item 3] = [(1, 1), (2, 2)] ∧
     scriptTerm true 0 [Ev.item 1, .transient 5, .item 2, .fatal 9, .item 3] = .fail (.fatal 9) := by decide
 
-/-- **A failed `Next` costs nothing** (`C_transient_transparent`, for every combinator at once): a
-script and the same script with its transient failures erased denote the same thing; so by `sden_next`
-the answers of any run — with the failed calls erased — are those of the fault-free run, no item lost
-or duplicated. Combined with the `s_*_denotes` theorems this holds behind every pipeline. -/
-theorem transient_transparent (sc : List (Ev α)) :
+/-- the fault-free reference: the spec of a script (`scriptItems true`, `scriptTerm true`: the items before
+the first fatal failure, then that failure or the end) is the spec of the same script with its transient
+failures removed — so the outputs the theorems below compare a faulty run with *are* those of the
+fault-free run (a fact about the two list functions, used to read the statements). -/
+theorem script_spec_ignores_transients (sc : List (Ev α)) :
     scriptItems true 0 (eraseT sc) = scriptItems true 0 sc ∧ scriptTerm true 0 (eraseT sc) = scriptTerm true 0 sc :=
   ⟨scriptItems_eraseT true 0 sc, scriptTerm_eraseT true 0 sc⟩
 
-/-- The consumer-level reading of the two theorems above for a combinator `C` given by its
-denotation lemma `hC`: whatever contexts are passed and wherever the transient failures sit, the
-answers with the failed calls erased conform to what `C` yields on the erased script. -/
-theorem pipeline_transient_transparent {σ' : Type w} {m' : SM σ' β} {cost' : σ' → Nat} {mk : Src α → σ'}
-    {spec : List (α × Nat) → Term → List (β × Nat) × Term}
-    (hC : ∀ (s : Src α) L t, SDen Err.soft src (fun s : Src α => s.pulled) s L t →
-      SDen Err.soft m' cost' (mk s) (spec L t).1 (spec L t).2)
-    (sc : List (Ev α)) :
-    ∃ F, ∀ fuel, F ≤ fuel → ∀ cs,
-      Conforms (hard Err.soft (snexts m' fuel cs (mk (Src.of sc))))
-        ((spec (scriptItems true 0 (eraseT sc)) (scriptTerm true 0 (eraseT sc))).1.map Prod.fst)
-        (spec (scriptItems true 0 (eraseT sc)) (scriptTerm true 0 (eraseT sc))).2 := by
-  rw [(transient_transparent sc).1, (transient_transparent sc).2]
-  exact sden_conforms rfl (hC _ _ _ (source_fault_denotes sc))
+/-! ## level 1 — one step: the error itself, own state untouched
 
-/-- instance: `Chunk` keeps its pending chunk across failed calls -/
-theorem chunk_transient_transparent (n : Nat) (sc : List (Ev α)) :
-    ∃ F, ∀ fuel, F ≤ fuel → ∀ cs,
-      Conforms (hard Err.soft (snexts (chunk (n : Int) src) fuel cs ⟨Src.of sc, []⟩))
-        ((chunkGoS n [] (scriptItems true 0 (eraseT sc)) (scriptTerm true 0 (eraseT sc))).map Prod.fst)
-        (scriptTerm true 0 (eraseT sc)) :=
-  pipeline_transient_transparent (m' := chunk (n : Int) src) (mk := fun s => ⟨s, []⟩)
-    (spec := fun L t => (chunkGoS n [] L t, t)) (fun _ _ _ h => chunk_sden n h []) sc
+For an arbitrary inner machine `m`: if the pull (`inner.Next(ctx)`) answers the error `e` — a fatal or
+transient source failure, the context error, an error handed through from further down — the method
+answers `e` itself and only its inner state moves. Proved by evaluating the regenerated error guards and
+returned error operands of the method (`Proofs/StreamGuards.lean`). -/
+
+/-- `Chunk`: the error itself; the pending chunk stays (it is delivered by a later call, or dropped by a fatal failure) -/
+theorem chunk_error_itself (size : Int) (m : SM σ α) (st : ChunkSt σ α) (c : Bool) (e : Err) (s' : σ)
+    (h : m.step st.inner c = (.err e, s')) : (chunk size m).step st c = (.err e, { st with inner := s' }) := by
+  simp [chunk, h]
+
+/-- `CompactFunc`: the error itself; `first` / `prev` stay -/
+theorem compact_error_itself (eq : α → α → Bool) (m : SM σ α) (st : CompactSt σ α) (c : Bool) (e : Err) (s' : σ)
+    (h : m.step st.inner c = (.err e, s')) : (compact eq m).step st c = (.err e, { st with inner := s' }) := by
+  simp [compact, h]
+
+/-- `Filter`: the source's error itself … -/
+theorem filter_error_itself (keep : α → Except Err Bool) (m : SM σ α) (st : Wrap σ) (c : Bool) (e : Err) (s' : σ)
+    (h : m.step st.inner c = (.err e, s')) : (filter keep m).step st c = (.err e, ⟨s'⟩) := by
+  simp [filter, h]
+
+/-- … and the callback's error itself -/
+theorem filter_callback_error_itself (keep : α → Except Err Bool) (m : SM σ α) (st : Wrap σ) (c : Bool) (a : α)
+    (e : Err) (s' : σ) (h : m.step st.inner c = (.item a, s')) (hk : keep a = .error e) :
+    (filter keep m).step st c = (.err e, ⟨s'⟩) := by
+  simp [filter, h, hk]
+
+/-- `Map`: the source's error itself … -/
+theorem map_error_itself (f : α → Except Err β) (m : SM σ α) (st : Wrap σ) (c : Bool) (e : Err) (s' : σ)
+    (h : m.step st.inner c = (.err e, s')) : (map f m).step st c = (.err e, ⟨s'⟩) := by
+  simp [map, h]
+
+/-- … and the callback's error itself -/
+theorem map_callback_error_itself (f : α → Except Err β) (m : SM σ α) (st : Wrap σ) (c : Bool) (a : α)
+    (e : Err) (s' : σ) (h : m.step st.inner c = (.item a, s')) (hk : f a = .error e) :
+    (map f m).step st c = (.err e, ⟨s'⟩) := by
+  simp [map, h, hk]
+
+/-- `First`: the error itself, and the failed call is not counted against `n` -/
+theorem first_error_itself (m : SM σ α) (st : FirstSt σ) (c : Bool) (e : Err) (s' : σ) (hx : 0 < st.x)
+    (h : m.step st.inner c = (.err e, s')) : (first m).step st c = (.err e, { st with inner := s' }) := by
+  have : stFirstDone st.x = false := by simp [stFirstDone]; omega
+  simp [first, this, h]
+
+/-- `While`: the source's error itself; nothing is held … -/
+theorem while_error_itself (f : α → Except Err Bool) (m : SM σ α) (s : σ) (c : Bool) (e : Err) (s' : σ)
+    (h : m.step s c = (.err e, s')) : (while_ f m).step ⟨s, none, false⟩ c = (.err e, ⟨s', none, false⟩) := by
+  simp [while_, stWhileDone, stWhilePulls, h]
+
+/-- … and the callback's error itself, **with the item still held** (`item`/`has` stay: the next call
+asks the callback again about the same item, it is not pulled again and not lost) -/
+theorem while_callback_error_itself (f : α → Except Err Bool) (m : SM σ α) (s : σ) (c : Bool) (a : α) (e : Err) (s' : σ)
+    (h : m.step s c = (.item a, s')) (hk : f a = .error e) :
+    (while_ f m).step ⟨s, none, false⟩ c = (.err e, ⟨s', some a, false⟩) ∧
+    (while_ f m).step ⟨s', some a, false⟩ c = (.err e, ⟨s', some a, false⟩) := by
+  constructor
+  · simp [while_, stWhileDone, stWhilePulls, h, hk, stWhileSetsHas]
+  · simp [while_, stWhileDone, stWhilePulls, hk]
+
+/-- `WithPeek`, `Next`: the error itself; `Peek`: the error itself, nothing buffered, and a buffered
+item is served whatever the context -/
+theorem peekable_error_itself (m : SM σ α) (s : σ) (c : Bool) (e : Err) (s' : σ) (h : m.step s c = (.err e, s')) :
+    (withPeek m).step ⟨s, none⟩ c = (.err e, ⟨s', none⟩) ∧ peekPeek m ⟨s, none⟩ c = (.err e, ⟨s', none⟩) ∧
+    ∀ a c', peekPeek m ⟨s, some a⟩ c' = (.item a, ⟨s, some a⟩) ∧ ((withPeek m).step ⟨s, some a⟩ c').1 = .item a := by
+  refine ⟨by simp [withPeek, peekNext, stPeekNextHas, h], by simp [peekPeek, stPeekPulls, h], fun a c' => ?_⟩
+  exact ⟨by simp [peekPeek, stPeekPulls], by simp [withPeek, peekNext, stPeekNextHas]⟩
+
+/-- `FlattenSlices`: the error itself (the buffer is empty whenever the source is asked) -/
+theorem flattenSlices_error_itself (m : SM σ (List α)) (s : σ) (c : Bool) (e : Err) (s' : σ)
+    (h : m.step s c = (.err e, s')) : (flattenSlices m).step ⟨s, []⟩ c = (.err e, ⟨s', []⟩) := by
+  simp [flattenSlices, h]
+
+/-- `Flatten`: an error of the outer stream itself; an error of the current inner stream itself, and
+that inner stream stays the current one -/
+theorem flatten_error_itself (mo : SM σ τ) (mi : SM τ α) (so : σ) (fin : List τ) (c : Bool) (e : Err) :
+    (∀ s', mo.step so c = (.err e, s') → (flatten mo mi).step ⟨so, none, fin⟩ c = (.err e, ⟨s', none, fin⟩)) ∧
+    (∀ x x', mi.step x c = (.err e, x') → (flatten mo mi).step ⟨so, some x, fin⟩ c = (.err e, ⟨so, some x', fin⟩)) :=
+  ⟨fun s' h => by simp [flatten, h], fun x x' h => by simp [flatten, h]⟩
+
+/-- `Join`: an error of the argument being read itself; that argument stays the current one, the later
+ones are not touched -/
+theorem join_error_itself (m : SM σ α) (s : σ) (rest fin : List σ) (c : Bool) (e : Err) (s' : σ)
+    (h : m.step s c = (.err e, s')) : (join m).step ⟨s :: rest, fin⟩ c = (.err e, ⟨s' :: rest, fin⟩) := by
+  simp [join, h]
+
+/-- `Runs`: the outer stream (looking for the next run) and an inner stream report the error of the shared
+peekable's source itself; the run in progress stays as it is -/
+theorem runs_error_itself (same : α → α → Bool) (m : SM σ α) (s : σ) (gen g : Nat) (prev : α) (c : Bool) (e : Err) (s' : σ)
+    (h : m.step s c = (.err e, s')) :
+    runsOuter same m ⟨⟨s, none⟩, gen, none⟩ c = (.err e, ⟨⟨s', none⟩, gen, none⟩) ∧
+    runsInner same m g ⟨⟨s, none⟩, gen, some (g, prev, false)⟩ c = (.err e, ⟨⟨s', none⟩, gen, some (g, prev, false)⟩) := by
+  constructor
+  · simp [runsOuter, peekPeek, stPeekPulls, h]
+  · simp [runsInner, peekPeek, stPeekPulls, h]
+
+/-- `FromIterator`: a call whose context has expired is answered with the context error before the
+iterator is touched — nothing is pulled, nothing is lost -/
+theorem fromIterator_ctx_costs_nothing (m : Juniper.Model.Iter.IM σ α) (s : σ) :
+    (fromIterator m).step s false = (.err .ctx, s) := by
+  rw [fromIterator_step]; rfl
+
+example : let r := (chunk 3 src).step ⟨Src.of [Ev.transient 4, .item 9], [1, 2]⟩ true
+    r.1 = .err (.transient 4) ∧ r.2.pend = [1, 2] ∧ r.2.inner.script = [.item 9] := by decide
+
+/-! ## level 2 — one call: a failed `Next` costs nothing; a recovered source makes progress -/
+
+/-- **A failed call costs nothing** — any machine in a state that denotes `(L, t)` (every combinator and
+every pipeline, by the `s_*_denotes` theorems of C07), any context, enough fuel: the call either delivers
+what is due (the next item of `L`; at the end of `L` the end, or the hard failure `t` itself), or it
+fails softly — **with the context error only if its own context had expired** — and the machine is then
+in a state that denotes *the same* `(L, t)`: calling `Next` again continues exactly where it left off. -/
+theorem failed_call_costs_nothing {soft : Err → Bool} {m : SM σ α} {cost : σ → Nat} {s : σ} {L : List (α × Nat)} {t : Term}
+    (h : SDen soft m cost s L t) :
+    ∃ F, ∀ fuel, F ≤ fuel → ∀ c, CallOk soft m cost c (drive m c fuel s).1 (drive m c fuel s).2 L t := sden_call h
+
+/-- **Progress after recovery** — when no soft failure is ahead any more (a derivation in which nothing
+is soft: the source has recovered), a call under a live context returns exactly the next item (and the
+rest is again such a state), resp. the end / the failure itself. -/
+theorem recovered_source_progress {m : SM σ α} {cost : σ → Nat} {s : σ} {L : List (α × Nat)} {t : Term}
+    (h : SDen strict m cost s L t) :
+    ∃ F, ∀ fuel, F ≤ fuel →
+      match L, t with
+      | [], .end_ _ => (drive m true fuel s).1 = some .end_
+      | [], .fail e => (drive m true fuel s).1 = some (.err e)
+      | p :: L', _ => (drive m true fuel s).1 = some (.item p.1) ∧ SDen strict m cost (drive m true fuel s).2 L' t :=
+  drive_sden h
+
+/-- non-vacuity of the two together: `Chunk 2` over `1, transient, 2, 3`: the second call fails with that
+transient error, keeps the pending `[1]`, and the third — the source has recovered — delivers `[1, 2]` -/
+example : (snexts (chunk 2 src) 5 [true, true, true] ⟨Src.of [Ev.item 1, .transient 7, .item 2, .item 3], []⟩) =
+    [some (.err (.transient 7)), some (.item [1, 2]), some (.item [3])] := by decide
+
+/-! ## level 3 — the whole run, nothing erased (`ExactE`, see `Proofs/StreamRetry.lean`) -/
+
+/-- the general statement: a machine over a scripted source that hands soft failures through
+(`SoftThru`) and denotes `(L, t)` -/
+theorem retry_exact {σ' : Type w} {M : SM σ' β} {proj : σ' → Src α} {cost : σ' → Nat} {st : σ'} {L : List (β × Nat)} {t : Term}
+    (hthru : SoftThru src M proj) (h : SDen Err.soft M cost st L t) :
+    ∃ F, ∀ fuel, F ≤ fuel → ∀ cs : List Bool,
+      ExactE (cs.zip (snexts M fuel cs st)) (pendingT (proj st)) (L.map Prod.fst) t :=
+  Juniper.Proofs.StreamDen.retry_exact hthru h
+
+/-- a machine that answers the context error to a live call is excluded (this is what the erased reading
+`Conforms ∘ hard` could not do) -/
+theorem stuck_machine_excluded (E : List Nat) (l : List β) (t : Term) (R : List (Bool × Option (SStep β))) :
+    ¬ ExactE ((true, some (.err .ctx)) :: R) E l t := stuck_not_exact E l t R
+
+/-- **`Chunk`**: any fault script, any contexts. The pending chunk survives every failed call. -/
+theorem chunk_retry_exact (n : Nat) (sc : List (Ev α)) :
+    ∃ F, ∀ fuel, F ≤ fuel → ∀ cs : List Bool,
+      ExactE (cs.zip (snexts (chunk (n : Int) src) fuel cs ⟨Src.of sc, []⟩)) (transientsOf sc)
+        ((chunkGoS n [] (scriptItems true 0 sc) (scriptTerm true 0 sc)).map Prod.fst) (scriptTerm true 0 sc) :=
+  retry_exact (M := chunk (n : Int) src) (proj := fun st => st.inner) (chunk_softThru _ src)
+    (chunk_sden n (source_fault_denotes sc) [])
+
+example : transientsOf [Ev.item 1, .transient 5, .item 2, .transient 6, .fatal 9, .transient 7] = [5, 6, 7] := by decide
 
 example : chunkGoS 2 [] (scriptItems true 0 [Ev.item 1, .transient 5, .item 2, .item 3]) (.end_ 3) =
     [([1, 2], 2), ([3], 3)] := by decide
@@ -81,33 +233,19 @@ theorem chunk_fatal (n : Nat) (l : List α) (E : Nat) (rest : List (Ev α)) :
 /-- the same reading for every other single-source combinator is its `s_*_denotes` theorem (C07)
 instantiated with `t := .fail E`: the spec functions (`mapS`, `filterS`, `whileS`, `firstTermS`,
 `chunkGoS`, `flattenS`, `joinS`, `runsGoS`) leave a failure term untouched unless the combinator has
-already ended. For `Map`: if the callback succeeds on every item before the failure, all their images
-are delivered and then `E` itself. -/
-theorem map_fatal (f : α → Except Err β) (L : List (α × Nat)) (E : Err) (hok : ∀ p ∈ L, ∃ b, f p.1 = .ok b) :
-    (mapS f L (.fail E)).2 = .fail E ∧ (mapS f L (.fail E)).1.length = L.length := by
-  induction L with
-  | nil => exact ⟨rfl, rfl⟩
-  | cons p L ih =>
-    obtain ⟨a, c⟩ := p
-    obtain ⟨b, hb⟩ := hok (a, c) (by simp)
-    have := ih (fun p hp => hok p (by simp [hp]))
-    simp only [mapS, hb, List.length_cons]
-    exact ⟨this.1, by rw [this.2]⟩
+already ended. `Map` (machine level): the source fails for good with `E` after the items `l` and the
+callback succeeds: all their images are delivered and then `E` itself. -/
+theorem map_fatal (f : α → β) (l : List α) (E : Nat) (rest : List (Ev α)) :
+    SDen Err.soft (map (fun a => .ok (f a)) src) (fun st => st.inner.pulled) ⟨Src.of (fatalAfter l E rest)⟩
+      ((annot 0 l).map fun p => (f p.1, p.2)) (.fail (.fatal E)) := map_fatal_sden f l E rest
 
-/-- **`C_callback_error`**: a callback failing with `E` on some item: `Map` / `Filter` / `While`
-deliver the outputs of the items before it and then `E` itself (never the end, another error, or
-silence). Reading of `s_map_denotes`: the spec stops at the first failing item with `.fail E`. -/
-theorem map_callback_error (f : α → Except Err β) (a : α) (c : Nat) (E : Err) (hfa : f a = .error E)
-    (pre : List (α × Nat)) (hpre : ∀ p ∈ pre, ∃ b, f p.1 = .ok b) (post : List (α × Nat)) (t : Term) :
-    (mapS f (pre ++ (a, c) :: post) t).2 = .fail E ∧ (mapS f (pre ++ (a, c) :: post) t).1.length = pre.length := by
-  induction pre with
-  | nil => simp [mapS, hfa]
-  | cons p pre ih =>
-    obtain ⟨x, k⟩ := p
-    obtain ⟨b, hb⟩ := hpre (x, k) (by simp)
-    have := ih (fun p hp => hpre p (by simp [hp]))
-    simp only [List.cons_append, mapS, hb, List.length_cons]
-    exact ⟨this.1, by rw [this.2]⟩
+/-- **`C_callback_error`** (machine level): the callback of `Map` fails (hard) with `E` on the item `a`
+after succeeding on the items `pre`: the machine delivers `pre.length` outputs and then `E` itself —
+never the end, another error, or silence — whatever the source would have delivered afterwards. -/
+theorem map_callback_error (f : α → Except Err β) (hf : ∀ a e, f a = .error e → Err.soft e = false)
+    (pre : List α) (a : α) (post : List α) (E : Err) (hfa : f a = .error E) (hpre : ∀ x ∈ pre, ∃ b, f x = .ok b) :
+    ∃ L, SDen Err.soft (map f src) (fun st => st.inner.pulled) ⟨ofList (pre ++ a :: post)⟩ L (.fail E) ∧
+      L.length = pre.length := map_cb_sden f hf pre a post E hfa hpre
 
 /-- **Reducers return `E`**: a reducer gives up at the first failure of any kind (transient ones
 included) and returns that failure itself — `Collect`, `Reduce`, `SampleStream`. -/
@@ -153,11 +291,19 @@ theorem sample_err {m : SM σ α} {cost : σ → Nat} {s : σ} {L : List (α × 
   obtain ⟨F, hF⟩ := sample_sden h
   exact ⟨F, fun fuel hf => by simpa [outOf] using hF fuel hf⟩
 
-/-- `Runs` under faults (`runs_sden`, stated in C07 as `s_runs_denotes`): a failure in the middle of a
-run drops that run and surfaces itself; a failed call that costs nothing — whether it hit the outer
-stream while it was skipping the rest of a run, or an inner stream — changes nothing. -/
-theorem runs_fatal (same : α → α → Bool) (take : Option Nat) (acc : List α) (prev : α) (E : Err) :
-    runsGoS same take (some acc) prev [] (.fail E) = [] := rfl
+/-- `Runs` under faults (machine level, documented protocol): the source fails for good with `E` after the
+items `l`: the complete runs of `l` are delivered, the run being collected when the failure strikes is
+dropped (it is not an output the items seen determine: `runsGoS … [] (.fail E) = []`), then `E` itself. A
+failed call that costs nothing — whether it hit the outer stream while it was skipping the rest of a run,
+or an inner stream — changes nothing (`runs_retry_exact`). -/
+theorem runs_fatal (same : α → α → Bool) (hrefl : ∀ a, same a a = true) (take : Option Nat) (closeInner : Bool)
+    (l : List α) (E : Nat) (rest : List (Ev α)) :
+    SDen Err.soft (runsProto same take closeInner src) (StreamDen.rcost fun s : Src α => s.pulled)
+      ⟨⟨⟨Src.of (fatalAfter l E rest), none⟩, 0, none⟩, none⟩
+      (runsStartS same take (annot 0 l) (.fail (.fatal E))) (.fail (.fatal E)) :=
+  (runs_sden same hrefl take closeInner (fatal_src_sden l E rest)).2.2 0
+
+example : runsStartS (fun a b : Nat => a == b) none (annot 0 [1, 1, 2, 2]) (.fail (.fatal 9)) = [([1, 1], 3)] := by decide
 
 /-- the reducer's view of a script: the items before the first failure of any kind, then that failure -/
 theorem source_strict_denotes (sc : List (Ev α)) :
@@ -168,17 +314,123 @@ example : scriptTerm false 0 [Ev.item (1 : Nat), .transient 5, .item 2] = .fail 
 
 /-- a reducer handed an expired context returns the context error without consuming anything -/
 theorem reducer_ctx_costs_nothing {γ : Type v} (m : SM σ α) (f : γ → α → Except Err γ) (fuel : Nat) (acc : γ) (s : σ)
-    (h : m.step s false = (.err .ctx, s)) : reduceLoop m f false (fuel + 1) acc s = (.error .ctx, s) :=
-  reduceLoop_ctx m f fuel acc s h
+    (h : m.step s false = (.err .ctx, s)) : reduceLoop reduceG m f false (fuel + 1) acc s = (.error .ctx, s) :=
+  reduceLoop_ctx reduceG_canon m f (fun h => by cases h) fuel acc s h
 
-/-! ## every combinator named in the property: its own `*_transient_transparent`, `*_fatal`,
-`*_callback_error` (most are corollaries of its `s_*_denotes` theorem, which holds for every termination
-of the inner stream and any soft failures in between) -/
+/-- **a reducer over a faulty pipeline**: `Collect` over any `SPipe` pipeline over any fault script returns
+the pipeline's image of the first failure of any kind in the script (a reducer gives up at a transient
+failure too) — `E` itself — or, if the pipeline ends normally, all its outputs. -/
+theorem collect_pipeline {α : Type} (p : SPipe α) (sc : List (Ev α)) :
+    ∃ F, ∀ fuel, F ≤ fuel → (collect (p.machine src).m true fuel ((p.machine src).wrap (Src.of sc))).1 =
+      outOf (p.spec 0 (scriptItems false 0 sc) (scriptTerm false 0 sc)).2
+        ((p.spec 0 (scriptItems false 0 sc) (scriptTerm false 0 sc)).1.map Prod.fst) :=
+  collect_sden (spipe_sden' (soft := strict) (fun _ => rfl) (c := fun s : Src α => s.pulled) p (source_strict_denotes sc))
 
-/-- the general reading used below: whatever a combinator is shown to denote on a script, the consumer
+/-! ## every combinator named in the property: its own `*_retry_exact` (the whole run, nothing erased),
+`*_fatal`, `*_callback_error` -/
+
+/-! ### `*_retry_exact`: any fault script, any contexts -/
+
+/-- `Filter` (callback failing hard or not at all). -/
+theorem filter_retry_exact (keep : α → Except Err Bool) (hf : ∀ a e, keep a = .error e → Err.soft e = false)
+    (sc : List (Ev α)) :
+    ∃ F, ∀ fuel, F ≤ fuel → ∀ cs : List Bool,
+      ExactE (cs.zip (snexts (filter keep src) fuel cs ⟨Src.of sc⟩)) (transientsOf sc)
+        ((filterS keep (scriptItems true 0 sc) (scriptTerm true 0 sc)).1.map Prod.fst)
+        (filterS keep (scriptItems true 0 sc) (scriptTerm true 0 sc)).2 :=
+  retry_exact (M := filter keep src) (proj := fun st => st.inner) (filter_softThru keep hf src)
+    (filter_sden keep hf (source_fault_denotes sc))
+
+/-- `Map`. -/
+theorem map_retry_exact (f : α → Except Err β) (hf : ∀ a e, f a = .error e → Err.soft e = false) (sc : List (Ev α)) :
+    ∃ F, ∀ fuel, F ≤ fuel → ∀ cs : List Bool,
+      ExactE (cs.zip (snexts (map f src) fuel cs ⟨Src.of sc⟩)) (transientsOf sc)
+        ((mapS f (scriptItems true 0 sc) (scriptTerm true 0 sc)).1.map Prod.fst)
+        (mapS f (scriptItems true 0 sc) (scriptTerm true 0 sc)).2 :=
+  retry_exact (M := map f src) (proj := fun st => st.inner) (map_softThru f hf src)
+    (map_sden f hf (source_fault_denotes sc))
+
+/-- `CompactFunc` keeps `prev` / `first` across failed calls. -/
+theorem compact_retry_exact (eq : α → α → Bool) (sc : List (Ev α)) :
+    ∃ F, ∀ fuel, F ≤ fuel → ∀ cs : List Bool,
+      ExactE (cs.zip (snexts (compact eq src) fuel cs ⟨Src.of sc, true, none⟩)) (transientsOf sc)
+        ((Seq.compactGo (fun p q => eq p.1 q.1) none (scriptItems true 0 sc)).map Prod.fst) (scriptTerm true 0 sc) :=
+  retry_exact (M := compact eq src) (proj := fun st => st.inner) (compact_softThru eq src)
+    (compact_sden eq (source_fault_denotes sc) none)
+
+/-- `First` does not count a failed call against its budget. -/
+theorem first_retry_exact (n : Int) (sc : List (Ev α)) :
+    ∃ F, ∀ fuel, F ≤ fuel → ∀ cs : List Bool,
+      ExactE (cs.zip (snexts (first src) fuel cs ⟨Src.of sc, n⟩)) (transientsOf sc)
+        (((scriptItems true 0 sc).take n.toNat).map Prod.fst)
+        (firstTermS 0 n.toNat (scriptItems true 0 sc) (scriptTerm true 0 sc)) :=
+  retry_exact (M := first src) (proj := fun st => st.inner) (first_softThru src)
+    (first_sden (source_fault_denotes sc) n)
+
+/-- `While` keeps the held item across a failed callback / failed call. -/
+theorem while_retry_exact (f : α → Except Err Bool) (hf : ∀ a e, f a = .error e → Err.soft e = false) (sc : List (Ev α)) :
+    ∃ F, ∀ fuel, F ≤ fuel → ∀ cs : List Bool,
+      ExactE (cs.zip (snexts (while_ f src) fuel cs ⟨Src.of sc, none, false⟩)) (transientsOf sc)
+        ((whileS f (scriptItems true 0 sc) (scriptTerm true 0 sc)).1.map Prod.fst)
+        (whileS f (scriptItems true 0 sc) (scriptTerm true 0 sc)).2 :=
+  retry_exact (M := while_ f src) (proj := fun st => st.inner) (while_softThru f hf src)
+    (while_sden f hf (source_fault_denotes sc))
+
+/-- `WithPeek`: a failed `Next` leaves the peek buffer alone. -/
+theorem peekable_retry_exact (sc : List (Ev α)) :
+    ∃ F, ∀ fuel, F ≤ fuel → ∀ cs : List Bool,
+      ExactE (cs.zip (snexts (withPeek src) fuel cs ⟨Src.of sc, none⟩)) (transientsOf sc)
+        ((scriptItems true 0 sc).map Prod.fst) (scriptTerm true 0 sc) :=
+  retry_exact (M := withPeek src) (proj := fun st => st.inner) (withPeek_softThru src)
+    (peek_sden (source_fault_denotes sc))
+
+/-- `FlattenSlices` keeps its buffer across failed calls (and serves it whatever the context). -/
+theorem flattenSlices_retry_exact (sc : List (Ev (List α))) :
+    ∃ F, ∀ fuel, F ≤ fuel → ∀ cs : List Bool,
+      ExactE (cs.zip (snexts (flattenSlices src) fuel cs ⟨Src.of sc, []⟩)) (transientsOf sc)
+        (((scriptItems true 0 sc).flatMap fun p => p.1.map fun a => (a, p.2)).map Prod.fst) (scriptTerm true 0 sc) :=
+  retry_exact (M := flattenSlices src) (proj := fun st => st.inner) (flattenSlices_softThru src)
+    (flattenSlices_sden (source_fault_denotes sc))
+
+/-- `Runs` (documented protocol: outer `Next`, read the inner stream, optionally close it, advance): a
+failed call — whether it hit the outer stream while it was skipping the rest of a run, or an inner
+stream — returns the script's own error and loses nothing of the run being collected. -/
+theorem runs_retry_exact (same : α → α → Bool) (hrefl : ∀ a, same a a = true) (take : Option Nat)
+    (closeInner : Bool) (sc : List (Ev α)) :
+    ∃ F, ∀ fuel, F ≤ fuel → ∀ cs : List Bool,
+      ExactE (cs.zip (snexts (runsProto same take closeInner src) fuel cs ⟨⟨⟨Src.of sc, none⟩, 0, none⟩, none⟩))
+        (transientsOf sc) ((runsStartS same take (scriptItems true 0 sc) (scriptTerm true 0 sc)).map Prod.fst)
+        (scriptTerm true 0 sc) :=
+  retry_exact (M := runsProto same take closeInner src) (proj := fun st => st.rs.pk.inner)
+    (runsProto_softThru same take closeInner src)
+    ((runs_sden same hrefl take closeInner (source_fault_denotes sc)).2.2 0)
+
+/-- `Peek` under faults (live context; `peekable.Peek` is one of the anchors): it never changes what the
+stream denotes; it answers the first item, the end, a soft failure (nothing lost, nothing buffered), or
+the hard failure the stream denotes — itself. -/
+theorem peek_faults {soft : Err → Bool} {m : SM σ α} {cost : σ → Nat} {s : σ} {L : List (α × Nat)} {t : Term}
+    (h : SDen soft m cost s L t) :
+    (∃ e, (peekPeek m ⟨s, none⟩ true).1 = .err e ∧ soft e = false ∧ L = [] ∧ t = .fail e) ∨
+    ((peekPeek m ⟨s, none⟩ true).1 = .end_ ∧ L = [] ∧ ∃ e, t = .end_ e) ∨
+    (SDen soft (withPeek m) (fun st => cost st.inner) (peekPeek m ⟨s, none⟩ true).2 L t ∧
+      ((peekPeek m ⟨s, none⟩ true).1 = .skip ∨ (∃ e, (peekPeek m ⟨s, none⟩ true).1 = .err e ∧ soft e = true) ∨
+        ∃ a c L', L = (a, c) :: L' ∧ (peekPeek m ⟨s, none⟩ true).1 = .item a)) := peekPeek_sden h
+
+/-! ### the multi-source combinators: the erased reading (partial)
+
+For `Flatten` and `Join` the steps (`*_error_itself`) and single calls (`failed_call_costs_nothing`,
+which applies to them through `s_flatten_denotes` / `s_join_denotes`) are exact. For the
+whole run only the *erased* reading is stated: the answers with the failed calls that cost nothing removed
+(`hard`) conform to the fault-free sequence. That reading does not say that a failed call returned the
+script's own transient error, nor that a live call never answers the context error, and it bounds the
+number of failed calls by nothing; the full statement is `ExactE` over the transient failures of all
+sources involved (interleaved in the order the sources are asked), as proved above for the
+single-source combinators. -/
+
+/-- the erased reading, in general: whatever a combinator is shown to denote on a script, the consumer
 sees — with the failed calls that cost nothing erased, under any contexts — what it denotes on the
 script with its transient failures erased. -/
-theorem erased_run_conforms {ι : Type x} {σ' : Type w} {m' : SM σ' β} {cost' : σ' → Nat} {st : σ'} (sc : List (Ev ι))
+theorem erased_run_conforms_weak {ι : Type x} {σ' : Type w} {m' : SM σ' β} {cost' : σ' → Nat} {st : σ'} (sc : List (Ev ι))
     (X : List (ι × Nat) → Term → List (β × Nat) × Term)
     (h : SDen Err.soft m' cost' st (X (scriptItems true 0 sc) (scriptTerm true 0 sc)).1
       (X (scriptItems true 0 sc) (scriptTerm true 0 sc)).2) :
@@ -188,77 +440,22 @@ theorem erased_run_conforms {ι : Type x} {σ' : Type w} {m' : SM σ' β} {cost'
   rw [scriptItems_eraseT true 0 sc, scriptTerm_eraseT true 0 sc]
   exact sden_conforms rfl h
 
-/-! ### `*_transient_transparent` -/
-
-theorem filter_transient_transparent (keep : α → Except Err Bool) (hf : ∀ a e, keep a = .error e → Err.soft e = false)
-    (sc : List (Ev α)) :
-    ∃ F, ∀ fuel, F ≤ fuel → ∀ cs, Conforms (hard Err.soft (snexts (filter keep src) fuel cs ⟨Src.of sc⟩))
-      ((filterS keep (scriptItems true 0 (eraseT sc)) (scriptTerm true 0 (eraseT sc))).1.map Prod.fst)
-      (filterS keep (scriptItems true 0 (eraseT sc)) (scriptTerm true 0 (eraseT sc))).2 :=
-  erased_run_conforms sc (filterS keep) (filter_sden keep hf (source_fault_denotes sc))
-
-theorem map_transient_transparent (f : α → Except Err β) (hf : ∀ a e, f a = .error e → Err.soft e = false)
-    (sc : List (Ev α)) :
-    ∃ F, ∀ fuel, F ≤ fuel → ∀ cs, Conforms (hard Err.soft (snexts (map f src) fuel cs ⟨Src.of sc⟩))
-      ((mapS f (scriptItems true 0 (eraseT sc)) (scriptTerm true 0 (eraseT sc))).1.map Prod.fst)
-      (mapS f (scriptItems true 0 (eraseT sc)) (scriptTerm true 0 (eraseT sc))).2 :=
-  erased_run_conforms sc (mapS f) (map_sden f hf (source_fault_denotes sc))
-
-/-- `CompactFunc` keeps `prev` / `first` across failed calls. -/
-theorem compact_transient_transparent (eq : α → α → Bool) (sc : List (Ev α)) :
-    ∃ F, ∀ fuel, F ≤ fuel → ∀ cs, Conforms (hard Err.soft (snexts (compact eq src) fuel cs ⟨Src.of sc, true, none⟩))
-      ((Seq.compactGo (fun p q => eq p.1 q.1) none (scriptItems true 0 (eraseT sc))).map Prod.fst)
-      (scriptTerm true 0 (eraseT sc)) :=
-  erased_run_conforms sc (fun L t => (Seq.compactGo (fun p q => eq p.1 q.1) none L, t))
-    (compact_sden eq (source_fault_denotes sc) none)
-
-/-- `First` does not count a failed call against its budget. -/
-theorem first_transient_transparent (n : Int) (sc : List (Ev α)) :
-    ∃ F, ∀ fuel, F ≤ fuel → ∀ cs, Conforms (hard Err.soft (snexts (first src) fuel cs ⟨Src.of sc, n⟩))
-      (((scriptItems true 0 (eraseT sc)).take n.toNat).map Prod.fst)
-      (firstTermS 0 n.toNat (scriptItems true 0 (eraseT sc)) (scriptTerm true 0 (eraseT sc))) :=
-  erased_run_conforms sc (fun L t => (L.take n.toNat, firstTermS 0 n.toNat L t))
-    (first_sden (source_fault_denotes sc) n)
-
-/-- `While` keeps the held item across a failed callback / failed call. -/
-theorem while_transient_transparent (f : α → Except Err Bool) (hf : ∀ a e, f a = .error e → Err.soft e = false)
-    (sc : List (Ev α)) :
-    ∃ F, ∀ fuel, F ≤ fuel → ∀ cs, Conforms (hard Err.soft (snexts (while_ f src) fuel cs ⟨Src.of sc, none, false⟩))
-      ((whileS f (scriptItems true 0 (eraseT sc)) (scriptTerm true 0 (eraseT sc))).1.map Prod.fst)
-      (whileS f (scriptItems true 0 (eraseT sc)) (scriptTerm true 0 (eraseT sc))).2 :=
-  erased_run_conforms sc (whileS f) (while_sden f hf (source_fault_denotes sc))
-
-/-- `WithPeek`: a failed `Next` leaves the peek buffer alone. -/
-theorem peekable_transient_transparent (sc : List (Ev α)) :
-    ∃ F, ∀ fuel, F ≤ fuel → ∀ cs, Conforms (hard Err.soft (snexts (withPeek src) fuel cs ⟨Src.of sc, none⟩))
-      ((scriptItems true 0 (eraseT sc)).map Prod.fst) (scriptTerm true 0 (eraseT sc)) :=
-  erased_run_conforms sc (fun L t => (L, t)) (peek_sden (source_fault_denotes sc))
-
-/-- `FlattenSlices` keeps its buffer across failed calls. -/
-theorem flattenSlices_transient_transparent (sc : List (Ev (List α))) :
-    ∃ F, ∀ fuel, F ≤ fuel → ∀ cs, Conforms (hard Err.soft (snexts (flattenSlices src) fuel cs ⟨Src.of sc, []⟩))
-      (((scriptItems true 0 (eraseT sc)).flatMap fun p => p.1.map fun a => (a, p.2)).map Prod.fst)
-      (scriptTerm true 0 (eraseT sc)) :=
-  erased_run_conforms sc (fun L t => (L.flatMap fun p => p.1.map fun a => (a, p.2), t))
-    (flattenSlices_sden (source_fault_denotes sc))
-
-/-- `Flatten` (faulty outer stream, inner streams denoting `D`): a failed call of the outer stream or
-of the current inner stream changes nothing; the current inner stream is kept. -/
-theorem flatten_transient_transparent {mi : SM τ α} (D : τ → List α × Term) (sc : List (Ev τ))
+/-- **`flatten_transient_conforms_partial`** (faulty outer stream, inner streams denoting `D`): erased reading. -/
+theorem flatten_transient_conforms_partial {mi : SM τ α} (D : τ → List α × Term) (sc : List (Ev τ))
     (hD : ∀ p ∈ scriptItems true 0 sc, ∃ (ci : τ → Nat) (Li : List (α × Nat)),
       SDen Err.soft mi ci p.1 Li (D p.1).2 ∧ Li.map Prod.fst = (D p.1).1) :
     ∃ F, ∀ fuel, F ≤ fuel → ∀ cs, Conforms (hard Err.soft (snexts (flatten src mi) fuel cs ⟨Src.of sc, none, []⟩))
       ((flattenS D (scriptItems true 0 (eraseT sc)) (scriptTerm true 0 (eraseT sc))).1.map Prod.fst)
       (flattenS D (scriptItems true 0 (eraseT sc)) (scriptTerm true 0 (eraseT sc))).2 :=
-  erased_run_conforms sc (flattenS D) (flatten_sden D (source_fault_denotes sc) hD [])
+  erased_run_conforms_weak sc (flattenS D) (flatten_sden D (source_fault_denotes sc) hD [])
 
 /-- non-vacuity: a faulty outer script of faulty inner scripted sources -/
 example : (flattenS srcD (scriptItems true 0
       [Ev.item (Src.of [Ev.item 1, .transient 3, .item 2]), .transient 7, .item (Src.of [Ev.item 3])]) (.end_ 2)).1.map Prod.fst
     = [1, 2, 3] := by decide
 
-/-- `Join` over faulty scripted sources: transient failures of any argument cost nothing. -/
-theorem join_transient_transparent (scs : List (List (Ev α))) :
+/-- **`join_transient_conforms_partial`** (faulty scripted arguments): erased reading. -/
+theorem join_transient_conforms_partial (scs : List (List (Ev α))) :
     ∃ F, ∀ fuel, F ≤ fuel → ∀ cs, Conforms (hard Err.soft (snexts (join src) fuel cs ⟨scs.map Src.of, []⟩))
       ((joinS srcD ((scs.map eraseT).map Src.of)).1.map Prod.fst) (joinS srcD ((scs.map eraseT).map Src.of)).2 := by
   have e : joinS srcD ((scs.map eraseT).map Src.of) = joinS srcD (scs.map Src.of) := by
@@ -272,16 +469,6 @@ theorem join_transient_transparent (scs : List (List (Ev α))) :
   exact sden_conforms rfl (join_sden (soft := Err.soft) srcD (scs.map Src.of) (fun s hs => by
     obtain ⟨sc, _, rfl⟩ := List.mem_map.mp hs
     exact srcD_hyp_script sc) [])
-
-/-- `Runs` (documented protocol). -/
-theorem runs_transient_transparent (same : α → α → Bool) (hrefl : ∀ a, same a a = true) (take : Option Nat)
-    (closeInner : Bool) (sc : List (Ev α)) :
-    ∃ F, ∀ fuel, F ≤ fuel → ∀ cs,
-      Conforms (hard Err.soft (snexts (runsProto same take closeInner src) fuel cs ⟨⟨⟨Src.of sc, none⟩, 0, none⟩, none⟩))
-        ((runsStartS same take (scriptItems true 0 (eraseT sc)) (scriptTerm true 0 (eraseT sc))).map Prod.fst)
-        (scriptTerm true 0 (eraseT sc)) :=
-  erased_run_conforms sc (fun L t => (runsStartS same take L t, t))
-    ((runs_sden same hrefl take closeInner (source_fault_denotes sc)).2.2 0)
 
 /-! ### `*_fatal`: the source delivers `l` and then fails for good with `E` -/
 
@@ -360,14 +547,6 @@ theorem flatten_fatal {mi : SM τ α} (D : τ → List α × Term) (xs : List τ
   have h := flatten_sden (soft := Err.soft) D (fatal_src_sden xs E rest) (fun p hp => hD p.1 (hm p hp)) []
   rwa [flattenS_allEnd D _ _ (fun p hp => hend p.1 (hm p hp))] at h
 
-/-- `Flatten`, an inner stream failing with `E`: the items of the inner streams before it, its own
-items before the failure, then `E` itself — the later inner streams are never asked for. -/
-theorem flatten_inner_fatal (D : τ → List α × Term) (pre post : List (τ × Nat)) (x : τ) (k : Nat) (t : Term) (E : Err)
-    (hpre : AllEnd D pre) (hx : (D x).2 = .fail E) :
-    flattenS D (pre ++ (x, k) :: post) t =
-      ((pre.flatMap fun p => (D p.1).1.map fun a => (a, p.2)) ++ (D x).1.map fun a => (a, k), .fail E) :=
-  flattenS_inner_fail D pre post x k t E hpre hx
-
 /-- `Join`: the arguments `pre` end normally, the next one fails for good with `E` after the items `l`:
 the items of `pre`, then `l`, then `E` itself — the later arguments are never asked for. -/
 theorem join_fatal (pre : List (List α)) (l : List α) (E : Nat) (rest : List (Ev α)) (post : List (List (Ev α))) :
@@ -397,17 +576,19 @@ example : fatalAfter [1, 2] 9 [Ev.item 3] = [Ev.item 1, .item 2, .fatal 9, .item
 
 /-! ### `*_callback_error`: a callback fails with `E` on some item -/
 
-/-- `Filter`: the kept ones among the items before it, then `E` itself. -/
-theorem filter_callback_error (keep : α → Except Err Bool) (a : α) (c : Nat) (E : Err) (hfa : keep a = .error E)
-    (pre : List (α × Nat)) (hpre : ∀ p ∈ pre, ∃ b, keep p.1 = .ok b) (post : List (α × Nat)) (t : Term) :
-    (filterS keep (pre ++ (a, c) :: post) t).2 = .fail E ∧
-    (filterS keep (pre ++ (a, c) :: post) t).1 = pre.filter fun p => keptBy keep p.1 :=
-  filterS_callback_error keep a c E hfa pre hpre post t
+/-- `Filter` (machine level): the callback fails (hard) with `E` on `a` after succeeding on `pre`: the kept
+ones of `pre`, then `E` itself — whatever the source would have delivered afterwards. -/
+theorem filter_callback_error (keep : α → Except Err Bool) (hf : ∀ a e, keep a = .error e → Err.soft e = false)
+    (pre : List α) (a : α) (post : List α) (E : Err) (hfa : keep a = .error E) (hpre : ∀ x ∈ pre, ∃ b, keep x = .ok b) :
+    ∃ L, SDen Err.soft (filter keep src) (fun st => st.inner.pulled) ⟨ofList (pre ++ a :: post)⟩ L (.fail E) ∧
+      L.map Prod.fst = pre.filter (keptBy keep) := filter_cb_sden keep hf pre a post E hfa hpre
 
-/-- `While`: the items before it (all passing), then `E` itself — not the end. -/
-theorem while_callback_error (f : α → Except Err Bool) (a : α) (c : Nat) (E : Err) (hfa : f a = .error E)
-    (pre : List (α × Nat)) (hpre : ∀ p ∈ pre, f p.1 = .ok true) (post : List (α × Nat)) (t : Term) :
-    whileS f (pre ++ (a, c) :: post) t = (pre, .fail E) := whileS_callback_error f a c E hfa pre hpre post t
+/-- `While` (machine level): the callback fails (hard) with `E` on `a` after passing all of `pre`: `pre`,
+then `E` itself — not the end. -/
+theorem while_callback_error (f : α → Except Err Bool) (hf : ∀ a e, f a = .error e → Err.soft e = false)
+    (pre : List α) (a : α) (post : List α) (E : Err) (hfa : f a = .error E) (hpre : ∀ x ∈ pre, f x = .ok true) :
+    SDen Err.soft (while_ f src) (fun st => st.inner.pulled) ⟨ofList (pre ++ a :: post), none, false⟩
+      (annot 0 pre) (.fail E) := while_cb_sden f hf pre a post E hfa hpre
 
 /-- `Reduce`: the callback succeeds on `pre` (reaching `acc'`) and fails with `E` on the next item: the
 reducer returns `E` itself, whatever the stream would have done later. -/
@@ -424,45 +605,64 @@ example : (filterS (fun n : Nat => if n = 3 then .error (.cb 7) else .ok (n % 2 
 
 /-! ## pipelines of any depth under sequences of several faults -/
 
-/-- **`pipeline_faults`**: any pipeline (`SPipe`: any depth, callbacks may fail) over any fault script —
-any number of transient failures at any positions, possibly a fatal one — under any per-call contexts
-(each expired context is one more fault): with the failed calls that cost nothing erased, the consumer
-sees exactly what the pipeline yields on the script without its transient failures; nothing lost,
-nothing duplicated, and the termination is the pipeline's own image of the script's. -/
-theorem pipeline_faults {α : Type} (p : SPipe α) (sc : List (Ev α)) :
-    ∃ F, ∀ fuel, F ≤ fuel → ∀ cs,
-      Conforms (hard Err.soft (snexts (p.machine src).m fuel cs ((p.machine src).wrap (Src.of sc))))
-        ((p.spec 0 (scriptItems true 0 (eraseT sc)) (scriptTerm true 0 (eraseT sc))).1.map Prod.fst)
-        (p.spec 0 (scriptItems true 0 (eraseT sc)) (scriptTerm true 0 (eraseT sc))).2 :=
-  erased_run_conforms sc (p.spec 0) (spipe_sden (c := fun s : Src α => s.pulled) p (source_fault_denotes sc))
+/-- **`pipeline_retry_exact`**: any pipeline of the seven stage kinds of `SPipe` (any depth; callbacks may
+fail with their own hard error) over any fault script — any number of transient failures at any
+positions, possibly a fatal one — under any per-call contexts: call by call (`ExactE`) the consumer sees
+the context error only under an expired context, each transient error of the script *itself*, in order
+and at most once, under a live context, and otherwise exactly what the pipeline yields on the script
+without its transient failures — nothing lost, nothing duplicated — ending with the pipeline's own image
+of the script's termination. (For pipelines containing `Runs` / `Chunk` alone / a type-changing `Map`: compose `retry_exact` with the
+stages' `*_softThru` and `s_*_denotes` lemmas by hand; `SoftThru` for the multi-source stages `Flatten` /
+`Join` is not proved.) -/
+theorem pipeline_retry_exact {α : Type} (p : SPipe α) (sc : List (Ev α)) :
+    ∃ F, ∀ fuel, F ≤ fuel → ∀ cs : List Bool,
+      ExactE (cs.zip (snexts (p.machine src).m fuel cs ((p.machine src).wrap (Src.of sc)))) (transientsOf sc)
+        ((p.spec 0 (scriptItems true 0 sc) (scriptTerm true 0 sc)).1.map Prod.fst)
+        (p.spec 0 (scriptItems true 0 sc) (scriptTerm true 0 sc)).2 := by
+  have h := retry_exact (spipe_softThru src p) (spipe_sden (c := fun s : Src α => s.pulled) p (source_fault_denotes sc))
+  simp only [SPipe.proj_wrap] at h
+  exact h
 
-/-- **two faults**: two transient failures anywhere in the input: the pipeline's answers (failed calls
-erased) are those of the fault-free input. -/
+/-- **two faults**: two transient failures anywhere in the input: the run is exact from `[n1, n2]` against
+the fault-free input's outputs. -/
 theorem pipeline_two_faults {α : Type} (p : SPipe α) (l1 l2 l3 : List α) (n1 n2 : Nat) :
-    ∃ F, ∀ fuel, F ≤ fuel → ∀ cs,
-      Conforms (hard Err.soft (snexts (p.machine src).m fuel cs ((p.machine src).wrap
+    ∃ F, ∀ fuel, F ≤ fuel → ∀ cs : List Bool,
+      ExactE (cs.zip (snexts (p.machine src).m fuel cs ((p.machine src).wrap
           (Src.of (l1.map Ev.item ++ .transient n1 :: (l2.map Ev.item ++ .transient n2 :: l3.map Ev.item))))))
+        [n1, n2]
         ((p.spec 0 (annot 0 (l1 ++ l2 ++ l3)) (.end_ (l1 ++ l2 ++ l3).length)).1.map Prod.fst)
         (p.spec 0 (annot 0 (l1 ++ l2 ++ l3)) (.end_ (l1 ++ l2 ++ l3).length)).2 := by
-  have h := spipe_sden (c := fun s : Src α => s.pulled) p
-    (source_fault_denotes (l1.map Ev.item ++ .transient n1 :: (l2.map Ev.item ++ .transient n2 :: l3.map Ev.item)))
+  have h := pipeline_retry_exact p (l1.map Ev.item ++ .transient n1 :: (l2.map Ev.item ++ .transient n2 :: l3.map Ev.item))
   rw [(script_two_transients l1 l2 l3 n1 n2).1, (script_two_transients l1 l2 l3 n1 n2).2,
     scriptItems_map_item, scriptTerm_map_item, Nat.zero_add] at h
-  exact sden_conforms rfl h
+  have e : transientsOf (l1.map Ev.item ++ Ev.transient n1 :: (l2.map Ev.item ++ Ev.transient n2 :: l3.map Ev.item)) = [n1, n2] := by
+    have k : ∀ (l : List α) (r : List (Ev α)), transientsOf (l.map Ev.item ++ r) = transientsOf r := by
+      intro l r; induction l with
+      | nil => rfl
+      | cons a l ih => simpa [transientsOf] using ih
+    have k0 : transientsOf (l3.map Ev.item) = [] := by have := k l3 []; simpa [transientsOf] using this
+    rw [k, transientsOf, k, transientsOf, k0]
+  rwa [e] at h
 
-/-- **a transient failure and later a fatal one**: the pipeline's outputs for the items before the
-fatal failure, then its image of that failure (`pipeline_fatal_surfaces`). -/
+/-- **a transient failure and later a fatal one**: exact from `n :: …` against the pipeline's outputs for
+the items before the fatal failure, then its image of that failure (`pipeline_fatal_surfaces`). -/
 theorem pipeline_transient_then_fatal {α : Type} (p : SPipe α) (l1 l2 : List α) (n E : Nat) (rest : List (Ev α)) :
-    ∃ F, ∀ fuel, F ≤ fuel → ∀ cs,
-      Conforms (hard Err.soft (snexts (p.machine src).m fuel cs ((p.machine src).wrap
+    ∃ F, ∀ fuel, F ≤ fuel → ∀ cs : List Bool,
+      ExactE (cs.zip (snexts (p.machine src).m fuel cs ((p.machine src).wrap
           (Src.of (l1.map Ev.item ++ .transient n :: (l2.map Ev.item ++ .fatal E :: rest))))))
+        (n :: transientsOf rest)
         ((p.spec 0 (annot 0 (l1 ++ l2)) (.fail (.fatal E))).1.map Prod.fst)
         (p.spec 0 (annot 0 (l1 ++ l2)) (.fail (.fatal E))).2 := by
-  have h := spipe_sden (c := fun s : Src α => s.pulled) p
-    (source_fault_denotes (l1.map Ev.item ++ .transient n :: (l2.map Ev.item ++ .fatal E :: rest)))
+  have h := pipeline_retry_exact p (l1.map Ev.item ++ .transient n :: (l2.map Ev.item ++ .fatal E :: rest))
   rw [(script_transient_then_fatal l1 l2 n E rest).1, (script_transient_then_fatal l1 l2 n E rest).2,
     scriptItems_map_item] at h
-  exact sden_conforms rfl h
+  have k : ∀ (l : List α) (r : List (Ev α)), transientsOf (l.map Ev.item ++ r) = transientsOf r := by
+    intro l r; induction l with
+    | nil => rfl
+    | cons a l ih => simpa [transientsOf] using ih
+  have e : transientsOf (l1.map Ev.item ++ Ev.transient n :: (l2.map Ev.item ++ Ev.fatal E :: rest)) = n :: transientsOf rest := by
+    rw [k, transientsOf, k]; simp [transientsOf]
+  rwa [e] at h
 
 /-- **`E` itself**: a pipeline over a stream that fails with `E` terminates with `E` — or with its own
 normal end when a `First`/`While` stage had already ended, or with a callback's own failure that came
@@ -470,11 +670,15 @@ first; never with another error and never silently. -/
 theorem pipeline_fatal_surfaces {α : Type} (p : SPipe α) (c0 : Nat) (L : List (α × Nat)) (E : Err) :
     TermOk E (p.spec c0 L (.fail E)).2 := spipe_termOk p c0 L E
 
-/-- non-vacuity: a depth-4 pipeline with a type-changing stage, two transient faults and a fatal one -/
+/-- non-vacuity: a depth-4 pipeline with a type-changing stage, two transient faults and a fatal one: the
+spec, and one concrete run (a live call, an expired one, live ones) against `ExactE` -/
 example :
     let p : SPipe Nat := .first 3 (.chunkFlat 2 (.filter (fun n => .ok (n % 2 == 1)) (.map (fun n => .ok (n + 1)) .src)))
     let sc : List (Ev Nat) := [.item 0, .transient 1, .item 1, .item 2, .transient 2, .item 4, .item 6, .fatal 9, .item 8]
-    (p.spec 0 (scriptItems true 0 (eraseT sc)) (scriptTerm true 0 (eraseT sc))).1.map Prod.fst = [1, 3, 5] := by
+    (p.spec 0 (scriptItems true 0 sc) (scriptTerm true 0 sc)).1.map Prod.fst = [1, 3, 5] ∧ transientsOf sc = [1, 2] ∧
+    snexts (p.machine src).m 20 [true, false, true, true, true, true, true] ((p.machine src).wrap (Src.of sc)) =
+      [some (.err (.transient 1)), some (.err .ctx), some (.item 1), some (.item 3), some (.err (.transient 2)),
+       some (.item 5), some .end_] := by
   decide
 
 end Juniper.Props.C08
